@@ -165,6 +165,7 @@ pub const BOUND_ROUTE_PROGRAMS: &[&str] = &[
     "a := {\"id\": \"A\", \"f\": fn () {\nreturn this.id\n}}\nh := {\"g\": a.f, \"id\": \"H\"}\n{\"g\": k} := h\nprint(k())\n{..r} := h\nprint(r.g())\nc := {h..}\nprint(c.g())\nfn pass(f) {\nreturn f\n}\nprint(pass(a.f)())\nprint(pass(h.g)())\n",
     "o := {\"id\": \"O\", \"helper\": fn () {\nreturn this.id\n}, \"run\": fn () {\nreturn this.helper() + this.helper()\n}, \"count\": fn (n) {\nif n == 0 {\nreturn this.id\n}\nreturn this.count(n - 1)\n}}\nprint(o.run())\nprint(o.count(3))\np := {\"id\": \"P\", \"helper\": o.helper, \"run\": o.run, \"count\": o.count}\nprint(p.run())\nprint(p.count(2))\n",
     "fn mk(id) {\nreturn {\"id\": id, \"helper\": fn () {\nreturn this.id\n}, \"run\": fn () {\nreturn this.helper()\n}}\n}\nx := mk(\"X\")\ny := mk(\"Y\")\ny.run = x.run\nprint(x.run())\nprint(y.run())\n",
+    "a := {\"id\": \"A\", \"f\": fn () {\nreturn this.id\n}}\nb := {\"id\": \"B\", \"f\": a.f}\nprint([b.f(), b[\"f\"](), a[\"f\"]()])\nk := \"f\"\nprint(b[k]())\nc := {\"id\": \"C\"}\nc[k] = b[k]\nprint([c.f(), c[\"f\"]()])\n{\"f\": g} := b\nprint(g())\nreg := {\"id\": \"R\", \"get\": a.f, \"inner\": b}\n{\"get\": h, \"inner\": {f}} := reg\nprint([h(), f()])\nfn take({get}, x) {\nreturn get()\n}\nprint(take(reg, 1))\n",
     "a := {\"id\": \"A\", \"f\": fn () {\nreturn this.id\n}}\nb := {\"id\": \"B\", \"f\": a.f}\njob := [a.f, b.f]\nfn call(f, g) {\nreturn [f(), g()]\n}\nprint(call(job[0], job[1]))\nprint(call(job..))\nprint(call(job[1:].., a.f))\nfn all(..fs) {\nreturn [fs[0](), fs[1]()]\n}\nprint(all(job..))\nprint([job.., job..][3]())\nhs := []\nhs += [b.f]\nhs = hs + job\nprint([hs[0](), hs[1]()])\nprint((job + [])[1]())\n",
     "plain := [fn () {\nreturn 1\n}]\nw := {\"l\": plain}\nprint([w.l..][0]())\nprint((w.l + [])[0]())\nreg := {\"id\": \"R\", \"hooks\": []}\nouter := {\"id\": \"outer\", \"run\": fn () {\nreg.hooks += [fn () {\nreturn this.id\n}]\nhs := [reg.hooks..]\nreturn [hs[0](), reg.hooks[0](), this.id]\n}}\nprint(outer.run())\nprint([reg.hooks..][0]())\n",
 ];
